@@ -9,7 +9,8 @@ impl<const BITS: usize, const LIMBS: usize> Uint<BITS, LIMBS> {
     #[inline]
     #[must_use]
     pub fn checked_log(self, base: Self) -> Option<usize> {
-        if base < Self::from(2) || self.is_zero() {
+        // `base <= 1` instead of `base < 2` because `2` does not fit when `BITS < 2`.
+        if base <= Self::ONE || self.is_zero() {
             return None;
         }
         Some(self.log(base))
@@ -21,7 +22,10 @@ impl<const BITS: usize, const LIMBS: usize> Uint<BITS, LIMBS> {
     #[inline]
     #[must_use]
     pub fn checked_log10(self) -> Option<usize> {
-        self.checked_log(Self::from(10))
+        if self.is_zero() {
+            return None;
+        }
+        Some(self.log10())
     }
 
     /// Returns the base 2 logarithm of the number, rounded down.
@@ -32,7 +36,10 @@ impl<const BITS: usize, const LIMBS: usize> Uint<BITS, LIMBS> {
     #[inline]
     #[must_use]
     pub fn checked_log2(self) -> Option<usize> {
-        self.checked_log(Self::from(2))
+        if self.is_zero() {
+            return None;
+        }
+        Some(self.log2())
     }
 
     /// Returns the logarithm of the number, rounded down.
@@ -44,7 +51,8 @@ impl<const BITS: usize, const LIMBS: usize> Uint<BITS, LIMBS> {
     #[must_use]
     pub fn log(self, base: Self) -> usize {
         assert!(!self.is_zero());
-        assert!(base >= Self::from(2));
+        // `base > 1` instead of `base >= 2` because `2` does not fit when `BITS < 2`.
+        assert!(base > Self::ONE);
         if base == Self::from(2) {
             return self.bit_len() - 1;
         }
@@ -104,7 +112,9 @@ impl<const BITS: usize, const LIMBS: usize> Uint<BITS, LIMBS> {
     #[inline]
     #[must_use]
     pub fn log10(self) -> usize {
-        self.log(Self::from(10))
+        assert!(!self.is_zero());
+        // If `10` does not fit the type, `self < 10` and the logarithm is zero.
+        Self::try_from(10_u64).map_or(0, |base| self.log(base))
     }
 
     /// Returns the base 2 logarithm of the number, rounded down.
@@ -115,7 +125,8 @@ impl<const BITS: usize, const LIMBS: usize> Uint<BITS, LIMBS> {
     #[inline]
     #[must_use]
     pub fn log2(self) -> usize {
-        self.log(Self::from(2))
+        assert!(!self.is_zero());
+        self.bit_len() - 1
     }
 
     /// Double precision logarithm.
